@@ -593,6 +593,10 @@ func childMain() {
 	if sc.NoFilter {
 		opts = append(opts, service.WithHasSubcontract(false))
 	}
+	if sc.KeyPrefix != "" {
+		prefix := sc.KeyPrefix
+		opts = append(opts, service.WithKeyFunc(func(m *service.Message) (string, bool) { return prefix + m.JTMessage.Header.TerminalPhoneNo, true }))
+	}
 	if sc.Handlers == "parse_all" {
 		opts = append(opts, service.WithCustomHandleFunc(parseAllHandlers))
 	}
